@@ -139,7 +139,7 @@ MANIFEST = {
                  "and call histories run in pristine forked processes (state-between-calls is reported with the explicit history)",
 }
 
-PAD_POOL = [None, 0, "pad", -1, {"f": "0.0"}, {"o": -1}]
+PAD_POOL = [None, 0, "pad", -1, {"f": "0.0"}, {"o": -1}, {"o": -100}, {"o": -101}]
 EXC_POOL = ["DeviceError", "ValueError", "KeyError", "ZeroDivisionError"]
 
 
@@ -156,6 +156,16 @@ class Obj(object):
 
     def __repr__(self):
         return "Obj(%d)" % self.k
+
+
+class CallObj(Obj):
+    """pad value that is itself callable (a function, a class, an instance with __call__ are legal pad
+    values: the pad items must be the very object, never the result of calling it).  Calling it gives a
+    marker that is no Obj, so a stage that calls its pad value is seen in every padded item."""
+    __slots__ = ()
+
+    def __call__(self, *a, **k):
+        return ("called", self.k)
 
 
 class Int(int):
@@ -177,10 +187,11 @@ def untag(j, reg=None):
             return tuple(untag(e, reg) for e in j["t"])
         if "o" in j:
             k = j["o"]
+            cls = CallObj if k <= -100 else Obj     # objects numbered -100, -101, … are callable
             if reg is None:
-                return Obj(k)
+                return cls(k)
             if k not in reg:
-                reg[k] = Obj(k)
+                reg[k] = cls(k)
             return reg[k]
         raise ValueError("untag %r" % (j,))
     return j
